@@ -70,6 +70,9 @@
 #ifndef CNT
 #define CNT 1
 #endif
+#ifndef OFFBITS
+#define OFFBITS 40
+#endif
 #ifndef OFFMODE
 #define OFFMODE 0	/* 0: offset 0; 1: offset a multiple of TDS; 2: any offset */
 #endif
@@ -201,11 +204,11 @@ int main(void)
 #if OFFMODE == 0
 	vf_data.offset = 0;
 #elif OFFMODE == 1
-	/* BOUND: offset below 2^40 */
-	ASSUME(IN.offset < (1ULL << 40) && IN.offset % TDS == 0 && IN.offset >= TDS);
+	/* BOUND: offset below 2^OFFBITS (40; 16 in the quick-tier offset queries) */
+	ASSUME(IN.offset < (1ULL << OFFBITS) && IN.offset % TDS == 0 && IN.offset >= TDS);
 	vf_data.offset = IN.offset;
 #else
-	ASSUME(IN.offset < (1ULL << 40) && IN.offset % TDS != 0);
+	ASSUME(IN.offset < (1ULL << OFFBITS) && IN.offset % TDS != 0);
 	vf_data.offset = IN.offset;
 #endif
 	/* ASSUME: written_block_map ids are absolute device undo blocks: id = fs-relative undo block + offset/tdb_data_size (undo_write_tdb's numbering); the checks below use the map only through "marked before / marked after" */
